@@ -306,10 +306,13 @@ extern "C" int harness_main() {
   static const int kCols[] = { 0, 24, 200 }; int cols = kCols[verif_choice("terminal_columns", 3)];
   setenv("TERM", "xterm", 1); verif_set_tty(1, cols);
 #endif
+#ifdef LONG_OUTPUT
+  g_long_output = verif_bool("commands_print_more_than_one_pipe_read");
+#endif
   verif_stdout_capture();
   InvocationResult r = invoke(o);
   VERIF_ASSERT(r.parsed && r.added, "the scenario manifest parses and the targets are known");
-  static char buf[16384]; long n = verif_stdout_copy(buf, sizeof buf); std::string out(buf, (size_t)n);
+  static char buf[65536]; long n = verif_stdout_copy(buf, sizeof buf); std::string out(buf, (size_t)n);
 #ifdef SMART_TERMINAL
   verif_set_tty(0, 0);
   { // what is left on each terminal line: the text after the last carriage return, without the clear-to-end-of-line sequences
@@ -331,7 +334,7 @@ extern "C" int harness_main() {
   // every block of command output appears exactly once, whole, directly after the status line of its command
   for (size_t i = 0; i < g_ref.size(); i++) {
     if (g_ref[i].phony) continue; const std::string& o0 = g_ref[i].outs[0]; const RefEdge& e = g_ref[i];
-    std::string block = "<<out " + o0 + ">>\npart two of " + o0 + "\n"; std::string errblock = "<<err " + o0 + ">>\n";
+    std::string block = out_block(o0); std::string errblock = "<<err " + o0 + ">>\n";
     int c1 = count_occurrences(out, "<<out " + o0 + ">>"), c2 = count_occurrences(out, block), e1 = count_occurrences(out, errblock);
     VERIF_ASSERT(c1 <= 1 && c1 == c2, "C20: a command's output is shown exactly once, as one contiguous block");
     VERIF_ASSERT(e1 <= 1, "C20: a failed command's output is shown exactly once");
